@@ -26,7 +26,7 @@ ASSUMPTIONS = [
     'the non-verbose argument iterator yields exactly 4 bytes for the first argument (checked structurally under C18 D2 for the slice, relied upon here)',
 ]
 MANIFEST = {'text': 'decides four recurring crash idioms exactly (which construct, which guard) and keeps a ledger of explicit panics; reports the count of panic-capable sites no rule speaks about so that green is not read as "cannot crash".'
-                    ' Added: every integer division has a non-zero divisor (constant, guard, or field invariant over all writers); cursor/remaining-bytes parsers keep both in lockstep and read only behind a fresh `remaining >= size` test. Added: for every combination of type bits the renderer branch that indexes the raw value without its own length test is covered by the class the argument iterator validated the length for (exhaustive over the type bits of the two if-chains).',
+                    ' Added: every integer division has a non-zero divisor (constant, guard, or field invariant over all writers); cursor/remaining-bytes parsers keep both in lockstep and read only behind a fresh `remaining >= size` test. Added: for every combination of type bits the renderer branch that indexes the raw value without its own length test is covered by the class the argument iterator validated the length for (exhaustive over the type bits of the two if-chains). Added: enum-indexed name tables cover the largest discriminant; the iterator\'s progress between two parse attempts is a parsed message or exactly one byte (termination of reading).',
             'technique': 'static analysis: dominating-guard (deviance) rules, explicit-panic ledger, backward provenance for allocation sizes'}
 
 UNWRAP = ('std::option::Option::<T>::unwrap', 'std::option::Option::<T>::expect')
@@ -70,6 +70,13 @@ def run(F, chk):
     check_dispatch_agreement(F, B7)
     B8 = chk.rule('B8', 'fixed tables indexed by an enum value (`TABLE[kind as usize]`) have more entries than the largest discriminant of that enum')
     check_enum_indexed_tables(F, lib, B8)
+    B9 = chk.rule('B9', 'termination of reading: between two parse attempts DltMessageIterator::next consumes exactly a parsed message or exactly one byte (never a computed amount that can be zero)')
+    import c01
+    from report import RuleResult
+    nexts = [x for x in F.order if x.path.startswith('<' + c01.IT) and x.impl_trait == 'std::iter::Iterator' and x.path.endswith('::next')]
+    B9.floor('DltMessageIterator::next', len(nexts), 1)
+    for x in nexts:
+        c01.check_iterator(x, B9, RuleResult('K2', 'not part of C03'), None, F)
     # census of what no rule speaks about
     census = {}
     for b in lib:
@@ -476,10 +483,13 @@ def counter_tested_nonzero(cfg, E, body, blk):
     return None
 
 
-def check_b3(lib, B3):
+def check_b3(lib, B3, anchor=None, ledger=None, floor_n=20, what='lifecycle/sort/control-message/argument-rendering code', select=None,
+             hint='a crafted value (timestamp beyond the reception time, zero length, ...) panics with overflow'):
     n = 0
+    anchor = anchor or B3_ANCHOR
+    B3_LEDGER = globals()['B3_LEDGER'] if ledger is None else ledger
     for b in lib:
-        if not B3_ANCHOR.match(b.path):
+        if not anchor.match(b.path):
             continue
         sites = [blk for blk in b.blocks if not blk.cleanup and blk.term.k == 'assert' and blk.term.d['ak'] == 'Overflow(Sub)']
         if not sites:
@@ -488,6 +498,8 @@ def check_b3(lib, B3):
         E = ExprBuilder(cfg)
         for blk in sites:
             a, bb = [E.operand(Operand(o)) for o in blk.term.d['ops']]
+            if select is not None and not select(b, cfg, blk):
+                continue
             n += 1
             B3.sites += 1
             B3.fn(b.path)
@@ -496,6 +508,20 @@ def check_b3(lib, B3):
                 c2, t2 = (guards.normalise(c, truth) if truth in (True, False) else (c, truth))
                 if implies_ge(c2, t2, a, bb):
                     why = 'guard ' + show(c2)[:80]
+            if why is None and (fold(bb) is not None and fold(bb) <= 1):
+                # `if let Some((last, rest)) = v.split_last_mut()` / `while let Some(x) = v.last()`: the Some edge witnesses len >= 1
+                EFn = ExprBuilder(cfg, fold_named=True)
+                sa = show(EFn.operand(Operand(blk.term.d['ops'][0])))
+                mlen = re.match(r'^(?:Vec|slice|VecDeque)::len\((.*)\)$', sa)
+                base = re.sub(r'^(&|mut |\(|\*)+', '', mlen.group(1)) if mlen else ''
+                while base.endswith(')') and base.count('(') < base.count(')'):
+                    base = base[:-1]
+                if mlen and len(base) >= 3:
+                    for (c, truth, D) in guards.known(cfg, EFn, blk.i):
+                        sc = show(c)
+                        if sc.startswith('discr(') and re.match(r'^discr\((?:slice|Vec|VecDeque)::(split_last|split_last_mut|split_first|split_first_mut|last|last_mut|first|first_mut|back|front|back_mut|front_mut)\(', sc) \
+                                and base in sc and (truth == ('eq', 1) or (isinstance(truth, tuple) and truth[0] == 'ne' and 0 in truth[1])):
+                            why = 'non-empty witness: Some edge of %s' % sc[:60]
             if why is None and isinstance(bb, tuple) and bb[0] == 'bin' and bb[1] == 'Div' and bb[2] == a and (fold(bb[3]) or 0) >= 1:
                 why = 'self-bounded: a - a/k'
             if why is None:
@@ -508,6 +534,12 @@ def check_b3(lib, B3):
                 why = counter_tested_nonzero(cfg, E, b, blk)
             if why is None:
                 why = callee_capped(lib, cfg, b, blk)
+            if why is None:
+                why = caller_guarded(lib, b, a, bb)
+            if why is None and isinstance(a, tuple) and isinstance(bb, tuple) and a[0] in ('place', 'proj') and bb[0] in ('place', 'proj') and \
+                    a[-1] == '.max_timestamp_us' and bb[-1] == '.min_timestamp_us' and a[:-1] == bb[:-1]:
+                # the same struct invariant wherever the two fields of one lifecycle are subtracted
+                why = 'ledger: ' + globals()['B3_LEDGER'][('adlt::lifecycle::parse_lifecycles_buffered_from_stream', '(*lc).max_timestamp_us', '(*lc).min_timestamp_us')]
             key = (b.path, re.sub(r'_\d+', '_tmp', show(a)[:60]), re.sub(r'_\d+', '_tmp', show(bb)[:60]))
             if why is None and key in B3_LEDGER:
                 why = 'ledger: ' + B3_LEDGER[key]
@@ -515,9 +547,46 @@ def check_b3(lib, B3):
                 B3.ok(sample={'function': b.path, 'at': b.loc(blk.term.sp), 'subtraction': '%s - %s' % (show(a)[:50], show(bb)[:50]), 'discharged_by': why})
             else:
                 B3.violation(('unguarded-subtraction', b.path, re.sub(r'_\d+', '_tmp', show(a)[:50]), re.sub(r'_\d+', '_tmp', show(bb)[:50])),
-                             'unsigned subtraction %s - %s at %s in time/size code has no dominating guard, clamp or ledger entry: a crafted value (timestamp beyond the reception time, zero length, ...) panics with overflow' % (show(a)[:60], show(bb)[:60], b.loc(blk.term.sp)),
+                             'unsigned subtraction %s - %s at %s has no dominating guard, clamp or ledger entry: %s' % (show(a)[:60], show(bb)[:60], b.loc(blk.term.sp), hint),
                              where=b.loc(blk.term.sp))
-    B3.floor('unsigned subtractions in lifecycle/sort/control-message/argument-rendering code', n, 20)
+    B3.floor('unsigned subtractions in ' + what, n, floor_n)
+
+
+def caller_guarded(lib, b, a, bb):
+    """`fn helper(x, y, ..) { .. x - y .. }` on two parameters of a private function: discharged if at every call site in the
+    library the dominating guards imply arg(x) >= arg(y)"""
+    if b.kind == 'closure' or not (isinstance(a, tuple) and a[0] == 'place' and len(a) == 2 and isinstance(bb, tuple) and bb[0] == 'place' and len(bb) == 2):
+        return None
+    names = {(b.name_of(i) or 'arg%d' % i): i for i in range(1, b.arg_count + 1)}
+    if a[1] not in names or bb[1] not in names:
+        return None
+    # the parameters must not be reassigned inside the helper
+    hcfg = CFG(b)
+    if hcfg.defs.get(names[a[1]]) or hcfg.defs.get(names[bb[1]]):
+        return None
+    sites = 0
+    for x in lib:
+        xcfg = xE = None
+        for xb in x.calls():
+            if (xb.term.callee.resolved or xb.term.callee.path) != b.path:
+                continue
+            xcfg = xcfg or CFG(x)
+            xE = xE or ExprBuilder(xcfg)
+            if len(xb.term.args) < max(names[a[1]], names[bb[1]]):
+                return None
+            a2 = xE.operand(xb.term.args[names[a[1]] - 1])
+            b2 = xE.operand(xb.term.args[names[bb[1]] - 1])
+            ok = False
+            for (c, truth, D) in guards.known(xcfg, xE, xb.i):
+                c2, t2 = (guards.normalise(c, truth) if truth in (True, False) else (c, truth))
+                if implies_ge(c2, t2, a2, b2):
+                    ok = True
+            if not ok:
+                return None
+            sites += 1
+    if sites:
+        return 'both operands are parameters; at each of the %d call site(s) a dominating guard implies minuend >= subtrahend' % sites
+    return None
 
 
 def callee_capped(lib, cfg, b, blk):
@@ -598,16 +667,22 @@ def check_b4(F, lib, B4):
     n = 0
     tainted = message_sized_fields(lib)
     B4.notes.append('message-sized fields: %s' % sorted('%s.%s' % (o.split('::')[-1], f) for (o, f) in tainted))
+    # allocations sized by a parameter of a crate function (`FileTransfer::new_started(.., prealloc_size)`): the size is judged
+    # at every call site of that function, with the argument passed for the parameter
+    work = []
     for b in lib:
-        sites = [blk for blk in b.calls() if ALLOC.search(blk.term.callee.path)]
-        if not sites:
-            continue
-        cfg = CFG(b)
-        pr = Prov(cfg)
-        E = ExprBuilder(cfg, fold_named=True)
-        for blk in sites:
-            t = blk.term
-            size_args = [a for a in t.args if (a.ty or '') in ('usize', 'u64', 'u32')]
+        for blk in b.calls():
+            if ALLOC.search(blk.term.callee.path):
+                work.append((b, blk, [a for a in blk.term.args if (a.ty or '') in ('usize', 'u64', 'u32')], blk.term))
+    seen_param_sites = set()
+    ctx = {}
+    while work:
+        (b, blk, size_args, t) = work.pop(0)
+        if True:
+            if b.path not in ctx:
+                cfg_ = CFG(b)
+                ctx[b.path] = (cfg_, Prov(cfg_), ExprBuilder(cfg_, fold_named=True))
+            cfg, pr, E = ctx[b.path]
             if not size_args:
                 continue
             toks = set()
@@ -616,6 +691,42 @@ def check_b4(F, lib, B4):
             dec = [c for c in calls_in(toks) if DECODE.search(c)]
             fld = [tk for tk in toks if tk[0] == 'fld' and (tk[1], tk[2]) in tainted]
             if not dec and not fld:
+                if b.kind != 'closure':
+                    # bounded right here (clamped inside the helper)?  then the callers only decide whether the site is message-sized
+                    size_txt_h = ' '.join(show(E.operand(a)) for a in size_args)
+                    bounded_here = 'cmp::min(' in size_txt_h or 'Ord::min(' in size_txt_h or any(re.search(r'(cmp::min|Ord::min|::clamp)$', c) for c in calls_in(toks))
+                    if bounded_here:
+                        msg_sized = False
+                        for tk in toks:
+                            if tk[0] != 'param':
+                                continue
+                            pi = [i for i in range(1, b.arg_count + 1) if (b.name_of(i) or 'arg%d' % i) == tk[1]]
+                            for x in lib:
+                                for xb in x.calls():
+                                    if pi and (xb.term.callee.resolved or xb.term.callee.path) == b.path and len(xb.term.args) >= pi[0]:
+                                        if x.path not in ctx:
+                                            cfg_ = CFG(x)
+                                            ctx[x.path] = (cfg_, Prov(cfg_), ExprBuilder(cfg_, fold_named=True))
+                                        xt = ctx[x.path][1].operand(xb.term.args[pi[0] - 1], at=xb.i)
+                                        if any(DECODE.search(c) for c in calls_in(xt)) or any(tk2[0] == 'fld' and (tk2[1], tk2[2]) in tainted for tk2 in xt):
+                                            msg_sized = True
+                        if msg_sized and (b.path, blk.i) not in seen_param_sites:
+                            seen_param_sites.add((b.path, blk.i))
+                            n += 1
+                            B4.sites += 1
+                            B4.fn(b.path)
+                            B4.ok(sample={'function': b.path, 'alloc_at': b.loc(blk.term.sp), 'size': size_txt_h[:80], 'bound': 'clamped with min() inside the helper; callers pass message-sized values'})
+                        continue
+                    for tk in toks:
+                        if tk[0] == 'param':
+                            pi = [i for i in range(1, b.arg_count + 1) if (b.name_of(i) or 'arg%d' % i) == tk[1]]
+                            if not pi or not re.search(r'^(usize|u64|u32)$', b.lty(pi[0])):
+                                continue
+                            for x in lib:
+                                for xb in x.calls():
+                                    if (xb.term.callee.resolved or xb.term.callee.path) == b.path and len(xb.term.args) >= pi[0] and (x.path, xb.i, pi[0]) not in seen_param_sites:
+                                        seen_param_sites.add((x.path, xb.i, pi[0]))
+                                        work.append((x, xb, [xb.term.args[pi[0] - 1]], t))
                 continue
             # widths of the decode results inside the provenance slice of the size
             wide = bool(fld)
